@@ -73,16 +73,17 @@ for n in range(0, 4):
        bound="all inputs of %d bytes; output checked against the reference ASCII85 decoder" % n)
 for l in (1, 2, 3, 4):
     ob("enc_rl_l%d" % l, ["C05", "C01"], "enc.rs", unwind=9, unwindset=[(r"^enc::run_length_decode$", 0, l + 1)], cuts=X1_ERR, stubs=[FMT_STUB], timeout=1800,
-       tier="quick" if l <= 3 else "thorough", functions=["enc::run_length_decode"],
+       tier="quick" if l <= 3 else "infeasible", functions=["enc::run_length_decode"],
        bound="all inputs of %d bytes incl. truncated runs, length bytes restricted to 0..=3, 128, 250..=255 (run counts <= 7); "
              "output compared at a symbolic index" % l)
 ob("enc_rl_max_repeat", ["C05"], "enc.rs", unwind=131, unwindset=[(r"^enc::run_length_decode$", 0, 3)], cuts=X1_ERR, stubs=[FMT_STUB], timeout=900,
    functions=["enc::run_length_decode"], bound="length byte 129 (128 copies), all data bytes")
-ob("enc_rl_max_literal", ["C05"], "enc.rs", unwind=131, unwindset=[(r"^enc::run_length_decode$", 0, 3)], tier="thorough", cuts=X1_ERR, stubs=[FMT_STUB], timeout=900,
+ob("enc_rl_max_literal", ["C05"], "enc.rs", unwind=131, unwindset=[(r"^enc::run_length_decode$", 0, 3)], tier="infeasible", cuts=X1_ERR, stubs=[FMT_STUB], timeout=900,
    functions=["enc::run_length_decode"], bound="length byte 127 (128 literal bytes), symbolic first/last data byte")
 for h, t in [("enc_flate_p12_c1_b8_w2", "quick"), ("enc_flate_p15_c1_b8_w3", "quick"), ("enc_flate_p15_c3_b8_w1", "quick"),
              ("enc_flate_p11_c2_b8_w2", "thorough"), ("enc_flate_p10_c1_b8_w2", "quick"), ("enc_flate_p15_c1_b4_w4", "quick"),
-             ("enc_flate_p15_c1_b16_w1", "thorough"), ("enc_flate_p14_c3_b8_w2_r3", "thorough"), ("enc_flate_p1", "quick")]:
+             ("enc_flate_p15_c1_b16_w1", "thorough"), ("enc_flate_p14_c3_b8_w2_r3", "infeasible"), ("enc_flate_p1", "quick"),
+             ("enc_flate_p11_c3_b4_w2", "quick"), ("enc_flate_p14_c3_b4_w2", "thorough")]:
     ob(h, ["C05", "C14"], "enc.rs", unwind=12 if "r3" not in h else 24, cuts=X1_ERR, stubs=[FMT_STUB], timeout=1800, mem_gb=12, tier=t,
        functions=["enc::flate_decode", "enc::inflate_bytes_zlib", "enc::inflate_bytes", "enc::unfilter",
                   "enc::PredictorType::from_u8", "libflate::deflate::Decoder (stored block path)"],
@@ -216,6 +217,9 @@ for rev in (2, 3):
        bound="revision %d, every user password of 0..=40 bytes, every /P, key size %s: hashed bytes = pad32(password) || O || P_le || ID, "
              "%s, file key = first digest" % (rev, "5" if rev == 2 else "16", "no extra rounds" if rev == 2 else "50 extra MD5 rounds over key_size bytes"))
 
+ob("crypt_owner_unwrap_rev3_40bit", ["C06"], "crypt.rs", unwind=54, cuts=X1_ALL, stubs=[FMT_STUB, RS_STUB, MD5_STUB, RC4_STUB, CTX_STUB],
+   timeout=3600, mem_gb=24, tier="quick", functions=["crypt::Decoder::from_password", "crypt::Decoder::from_password::key_derivation_owner_password_rc4"],
+   bound="revision 3, 40-bit key, every 4-byte owner password: /O is unwrapped with exactly 20 RC4 passes keyed with key XOR pass number")
 ob("crypt2_key_length_total", ["C14", "C06"], "crypt2.rs", unwind=54, cuts=X1_ALL, stubs=[FMT_STUB, RS_STUB, MD5_STUB, CTX_STUB,
    "crypt::Rc4::encrypt -> stub asserting Rc4::new's documented precondition (1..=256 key bytes)"], timeout=1800, mem_gb=16,
    functions=["crypt::Decoder::from_password"], bound="V 2, revision 2, /Length 0 and 8 bits, empty password: no panic, "
@@ -320,7 +324,7 @@ ob("stream_objstm_slice_hostile", ["C14", "C01"], "stream.rs", unwind=10, cuts=X
 # primitive.rs: C04 (string serialisation against the reference decoders)
 # ---------------------------------------------------------------------------------------------------------------------
 for n in (0, 1, 2, 3):
-    ob("prim_string_ser_n%d" % n, ["C04"], "primitive.rs", unwind=2 * n + 6, cuts=X1_ALL, stubs=[FMT_STUB], timeout=1200, mem_gb=12,
+    ob("prim_string_ser_n%d" % n, ["C04"], "primitive.rs", unwind=4 * n + 6, cuts=X1_ALL, stubs=[FMT_STUB], timeout=2400, mem_gb=28,
        tier="quick" if n <= 2 else "thorough", functions=["primitive::PdfString::serialize"],
        bound="every string of %d bytes: the serialised token decodes to the same bytes under the reference literal/hex string "
              "decoder; serialising does not panic" % n)
@@ -350,6 +354,9 @@ for h in ("font2_w_array_ascending", "font2_w_array_descending"):
     ob(h, ["C19"], "font2.rs", tier="infeasible", unwind=8, cuts=X1_FONT, stubs=[FMT_STUB, RS_STUB], timeout=1500, mem_gb=16,
        functions=["font::Font::widths", "font::Widths::set", "font::Widths::_set", "font::Widths::get"],
        bound="/W [2 [a b] 6 7 c] (%s order) with symbolic widths and /DW, every code 0..=10" % h[14:])
+for h in ("dict_lzwparams_roundtrip", "dict_lzwparams_read_defaults"):
+    ob(h, ["X91"], "dict.rs", unwind=8, cuts=X1_ALL, stubs=[FMT_STUB, RS_STUB], timeout=1500, mem_gb=20, functions=[], bound="probe")
+ob("dict_insert_get", ["X92"], "dict.rs", unwind=6, cuts=X1_ALL, stubs=[FMT_STUB, RS_STUB], timeout=900, mem_gb=16, functions=[], bound="probe")
 for h in ("parser2_int_then_sep", "parser2_int_at_end"):
     ob(h, ["C03", "C11"], "parser2.rs", tier="infeasible", unwind=6, unwindset=[(r"^core::slice::memchr::memchr_naive$", 0, 11)], unwindset_optional=True, cuts=X1_ALL,
        guards=[r"^parser::parse_with_lexer_ctx::<", r"^parser::parse_dictionary_object::<"], stubs=[FMT_STUB, UTF8_STUB], timeout=1500, mem_gb=16,
